@@ -181,6 +181,7 @@ struct G {
 	void fresh_dcc(uint8_t &h, uint8_t &l) {
 		for (int i = 0; i < 300; i++) {
 			h = (uint8_t) dp.pick(dp.chance(128) ? 4 : 64);
+			if (o.wide_dcc && dp.chance(90)) h = (uint8_t) (h | (dp.pick(3) + 1) << 6);
 			l = dp.u8();
 			if (i > 20) { h = (uint8_t) (i & 63); l = (uint8_t) (counter * 7 + i * 3); }
 			if (dcc_used.insert((unsigned) h << 8 | l).second) return;
